@@ -312,6 +312,13 @@ def corpus():
     emf = D.EndMarkerField(255, u8(), D.Struct([val("a", u8()), val("b", u8())]))
     out.append(("end-marker-item-collision", D.Composite("RQ", "request", [D.sid(), val("f", emf)]),
                 {"f": [{"a": 1, "b": 2}, {"a": 255, "b": 3}, {"a": 4, "b": 5}]}, None, KNOWN_END_MARKER))
+    # open known finding (forced by the proof of C04_nested_partial: every item of a dynamic field must consume >= 1 byte): the field ENCODERS
+    # accept items that do not occupy data; the decoders (fixes fc2486c / 6869fd8) reject or drop them
+    empty = D.Struct([])
+    out.append(("field-item-consumes-nothing(dyn-length)", D.Composite("RQ", "request", [D.sid(0x10), val("df", D.DynLenField(1, 0, None, u8(), empty))]),
+                {"df": [{}]}, None, ["field-item-consumes-nothing"]))
+    out.append(("field-item-consumes-nothing(end-of-pdu)", D.Composite("RQ", "request", [D.sid(0x10), val("ef", D.EopField(empty))]),
+                {"ef": [{}]}, None, ["field-item-consumes-nothing"]))
     return out
 
 
